@@ -218,7 +218,11 @@ def log_timeout_tree(event: 'BaseEvent[Any]', timed_out_result: 'EventResult[Any
     # Find the root event by walking up the parent chain
     root_event = event
     eventbus = event.event_bus
+    seen_event_ids: set[str] = {event.event_id}
     while root_event.event_parent_id:
+        if root_event.event_parent_id in seen_event_ids:
+            break  # the parent chain is circular (a handler re-dispatched its own ancestor): stop at the first repeat
+        seen_event_ids.add(root_event.event_parent_id)
         parent_found = False
         # Search for parent in all EventBus instances
         for bus in list(eventbus.all_instances):
@@ -330,8 +334,14 @@ def log_timeout_tree(event: 'BaseEvent[Any]', timed_out_result: 'EventResult[Any
         # Assemble and print
         logger.warning(f'{left_part}{col4_padding}{col5_timing_icon} {col6_elapsed}{col7_slash}{col8_max}  {col9_extra}')
 
+    printed_event_ids: set[str] = set()
+
     def print_event_tree(evt: 'BaseEvent[Any]', indent: str = ''):
         """Recursively print event and its handlers"""
+        if evt.event_id in printed_event_ids:
+            logger.warning(f'{indent}📣 {evt.event_type}#{evt.event_id[-4:]} (shown above)')
+            return
+        printed_event_ids.add(evt.event_id)
         event_start_time = (
             min(
                 (result.started_at for result in evt.event_results.values() if result.started_at is not None),
